@@ -54,7 +54,7 @@ def run(chk):
     recs = kernels(recs)
     chk.validate('density', 'Trace_Density', 'Trace_Density.cfg', recs, driver='density', jobs=14)
     goods = [r for r in recs if r['exc'] == '' and r['dist'] == 'cacg']
-    good = goods[0]
+    good = goods[0] if goods else None
 
     def corrupt(r):
         r['lp'] = [r['lp'][0], r['lp'][1] + 1]
